@@ -10,6 +10,7 @@ import (
 	"github.com/ethereum/go-ethereum/accounts/abi"
 	"github.com/ethereum/go-ethereum/core/vm"
 
+	erc20types "github.com/haqq-network/haqq/x/erc20/types"
 	"github.com/haqq-network/haqq/x/evm/statedb"
 )
 
@@ -79,6 +80,13 @@ func (p Precompile) RunSetup(
 	// return error if trying to write to state during a read-only call
 	if readOnly && isTransaction(method.Name) {
 		return sdk.Context{}, nil, nil, uint64(0), nil, vm.ErrWriteProtection
+	}
+
+	// The precompiles take evm.Origin for the transaction signer. The internal calls of the erc20 module
+	// (ConvertCoin of a native ERC-20 pair: token.transfer) run with the module account as origin although
+	// nobody signed for it: a token contract must not be able to act on (or grant over) the module account.
+	if isTransaction(method.Name) && evm.Origin == erc20types.ModuleAddress {
+		return sdk.Context{}, nil, nil, uint64(0), nil, fmt.Errorf("state-changing precompile call with the erc20 module account as origin")
 	}
 
 	// if the method type is `function` continue looking for arguments
